@@ -854,7 +854,12 @@ func markLocationCreated(ctx *Context, loc *Location) error {
 }
 
 func legalFact(ctx *Context, fact string) error {
-	return legalFactWithout(ctx, fact, createdMarker)
+	if err := legalFactWithout(ctx, fact, createdMarker); err != nil {
+		return err
+	}
+	// The marker is a property, and that's how a fact would have
+	// to spell it to overwrite the marker.
+	return legalFactWithout(ctx, fact, "!"+createdMarker)
 }
 
 // legalFact will return an error if the fact includes the given
